@@ -85,6 +85,13 @@ def alias_cases():
         if kind == "l": N = {"p": "src2/p", "k": "l", "target": "nowhere"}
         extra_ = [F("src2/p/inner", 5, 3)] if kind == "d" else []
         add("bystander-behind-link-%s" % kind, base + [D("src2"), N] + extra_ + [D("dst"), D("dst/src2"), L("dst/src2/p", "../../other/keep")], ["src2", "dst"], ["other/keep"], True)
+    # the destination holds, under the name of one source, a link or hard link to *another* source of the same run
+    two = [F("a", 3000, 101), F("b", 5000, 102), D("dd")]
+    add("dest-symlink-to-other-source", base + two + [L("dd/a", "../b")], ["a", "b", "dd"], ["a", "b"])
+    add("dest-symlink-to-other-source-reversed", base + two + [L("dd/a", "../b")], ["b", "a", "dd"], ["a", "b"])
+    add("dest-hardlink-of-other-source", base + two + [H("dd/a", "b")], ["a", "b", "dd"], ["a", "b"])
+    add("dest-hardlink-of-other-source-reversed", base + two + [H("dd/a", "b")], ["b", "a", "dd"], ["a", "b"])
+    add("dest-abs-symlink-to-other-source-glob", base + two + [L("dd/a", "@ROOT@/b")], ["--glob", "?", "dd"], ["a", "b"])
     # a source whose last component is `..` (or `.`) has no name of its own: its contents go into the destination, not next to it
     dd = [D("p"), D("p/a"), D("p/a/sub"), F("p/a/f", 21, 95), D("q"), D("q/dd"), F("q/f", 33, 96), D("q/sub"), F("q/sub/keep", 5, 97)]
     add("source-ending-in-dotdot", base + dd, ["p/a/sub/..", "q/dd"], ["q/f", "q/sub/keep", "p/a/f"], True)
